@@ -398,6 +398,8 @@ class LoopGen:
         else:
             shapes += ['rect2-steps']
         shape = r.choice(shapes)
+        if hostile == 'interchange_project_perm':
+            shape = 'rect3'
         L, tags = [], {'interchange', 'interchange-' + shape}
         facts = {'kind': 'interchange', 'shape': shape, 'project_bounds': project}
         v, w = self.lv('i'), self.lv('j')
@@ -438,6 +440,11 @@ class LoopGen:
             perm = list(vs)
             while perm == vs:
                 r.shuffle(perm)
+            if project and hostile != 'interchange_project_perm':
+                perm = list(reversed(vs))     # other orders: see hostile 'interchange_project_perm'
+            if hostile == 'interchange_project_perm':
+                perm = [vs[2], vs[0], vs[1]] if r.random() < 0.5 else [vs[1], vs[2], vs[0]]
+                tags.add('interchange-3-deep-projected-non-reversal')
             spec = ' (' + ', '.join(x[0] for x in perm) + ')'
             L.append('!$loki loop-interchange' + spec)
             for q, (x, rg) in enumerate(vs):
